@@ -280,20 +280,65 @@ def rule_hd_table(cx, rep, port):
         raise Undecided('select_output_header: naming loop not found', fd)
     lp = loops[-1]
     _hd_decision_table(rep, p, mod, fd, lp)
-    # HD-NOHDR
-    pre = [n for n in fd.body if isinstance(n, ast.If) and node_text(n.test) == 'input_header is None' and any(isinstance(x, ast.Return) for x in ast.walk(n))]
-    okn = False
-    if pre:
-        rets = [x for x in ast.walk(pre[-1]) if isinstance(x, ast.Return)]
-        okn = len(rets) == 1 and is_none(rets[0].value) and isinstance(rets[0].parent, ast.If) and node_text(rets[0].parent.test) == 'not query_has_column_alias'
-        resets = [x for x in pre[-1].body if isinstance(x, ast.Assign) and isinstance(x.value, ast.List) and not x.value.elts]
-        okn = okn and len(resets) == 2
-    rep.decide(okn, 'no input header', pre[-1] if pre else fd, 'without an input header an output header exists only when aliases are used', 'without an input header the function does not return None exactly when no alias is used')
+    # alias presence: a name that means "some column info has an alias" (flag loop, any(), some())
+    from ..idioms import exists_predicates
+    from .. import pathsem
+    ex = exists_predicates(fd)
+    alias_flags = []
+    for name, (pred, var, seq) in ex.items():
+        t_ = node_text(pred, 200).replace(' ', '')
+        if '{}.alias_nameisnotNone'.format(var) in t_ or '{}.alias_name!=None'.format(var) in t_:
+            alias_flags.append((name, pred, var))
+    if not alias_flags:
+        from ..idioms import forall_predicates
+        for name, (pred, var, seq) in forall_predicates(fd).items():
+            t_ = node_text(pred, 200).replace(' ', '')
+            if '{}.alias_nameisnotNone'.format(var) in t_ or '{}.alias_name!=None'.format(var) in t_:
+                rep.violated('alias detection', pred, '`{}` is true only when *every* column has an alias: a select list that mixes aliased and plain columns (or a star) over a table without header is treated as having no alias, so no header is produced and the star-with-alias error is not raised'.format(name))
+                return
+    if len(alias_flags) != 1:
+        rep.undecided('alias detection', fd, 'no single name of select_output_header means "some column info has an alias" ({} candidates among {})'.format(len(alias_flags), sorted(ex)))
+        return
+    aflag, apred, avar = alias_flags[0]
+    guarded = '{}isnotNone'.format(avar) in node_text(apred, 200).replace(' ', '')
+    rep.decide(guarded, 'alias detection', apred, 'alias presence = some column info exists and has an alias', 'the alias test `{}` dereferences missing column infos (None entries stand for unparsable items)'.format(node_text(apred, 80)))
+    # without an input header: no header at all unless aliases are used; otherwise both source headers count as empty
+    hdr = fd.args.args[0].arg
+    ps = pathsem.paths(fd)
+    if ps is None:
+        rep.undecided('no input header', fd, 'select_output_header is not summarisable as paths')
+    else:
+        n_none = n_go = 0
+        bad = None
+        for q in ps:
+            if q.kind == 'raise':
+                continue
+            no_hdr = None
+            has_alias = None
+            for atom, pol in pathsem.atoms(q.conds):
+                if isinstance(atom, ast.Compare) and len(atom.ops) == 1 and is_name(atom.left, hdr) and is_none(atom.comparators[0]) and isinstance(atom.ops[0], (ast.Is, ast.Eq)):
+                    no_hdr = pol if no_hdr is None else no_hdr     # the first test sees the parameter itself
+                if is_name(atom, aflag) or (isinstance(atom, ast.Call) and ast.dump(atom) == ast.dump(pathsem.subst(ast.Name(id=aflag, ctx=ast.Load()), q.env))):
+                    has_alias = pol
+            if not no_hdr:
+                continue
+            returns_none = q.kind == 'return' and (q.value is None or is_none(q.value))
+            if returns_none:
+                n_none += 1
+                if has_alias is not False:
+                    bad = (q, 'returns no header although aliases may be present')
+            else:
+                n_go += 1
+                if has_alias is not True:
+                    bad = (q, 'builds a header for a table without header although no alias is used')
+        if bad is not None:
+            rep.violated('no input header', bad[0].node if bad[0].node is not None else fd, 'without an input header the function {}'.format(bad[1]))
+        elif n_none and n_go:
+            rep.holds('no input header', fd, 'without an input header an output header exists exactly when aliases are used')
+        else:
+            rep.undecided('no input header', fd, 'paths for "no input header" not recognised ({} returning None, {} continuing)'.format(n_none, n_go))
     rets = [r for r in walk_no_nested(fd) if isinstance(r, ast.Return) and r.value is not None and not is_none(r.value)]
     rep.decide(len(rets) == 1 and is_name(rets[0].value, 'output_header'), 'result', rets[0] if rets else fd, 'returns the assembled header', 'does not return the assembled header')
-    flags = [n for n in walk_no_nested(fd) if isinstance(n, ast.Assign) and is_name(n.targets[0], 'query_has_column_alias')]
-    okf = len(flags) == 2 and 'qci.alias_name is not None' in node_text(flags[1].value)
-    rep.decide(okf, 'alias detection', flags[-1] if flags else fd, 'alias presence = some column info has an alias', 'alias detection changed')
 
 
 def rule_hd_shapes(cx, rep, port='py'):
@@ -738,9 +783,25 @@ def rule_va_enum(cx, rep, port):
                 rep.violated('attribute lookup total', skip.node if skip.node is not None else loops[0], 'an a.<name> variable found in the query is neither bound nor rejected when {}: a header column of that name silently evaluates to something else'.format(conds))
             else:
                 rep.holds('attribute lookup total', loops[0], 'every a.<name> of the query is bound to its column or rejected ({} path(s))'.format(len(lps)))
-    td = node_text(fdv, 3000)
-    okd = ('for i in range(len(column_names))' in td or 'for i in range(0, len(column_names))' in td) and 'column_name = column_names[i]' in td and td.count('index=i') + td.count("'index': i") >= 2
-    rep.decide(okd, 'dictionary variables', fdv, 'a["name"] -> position i of the name', 'a["name"] is no longer bound to the position of that name in the header')
+    # a["name"]: every entry stored for a name carries the position of that name in the header
+    names_param = fdv.args.args[2].arg
+    dstv = fdv.args.args[-1].arg
+    pairs_in = _index_name_pairs(fdv, names_param)
+    stores_d = [n for n in ast.walk(fdv) if isinstance(n, ast.Assign) and isinstance(n.targets[0], ast.Subscript) and is_name(n.targets[0].value, dstv)]
+    if not pairs_in or not stores_d:
+        rep.undecided('dictionary variables', fdv, 'loop over (position, name) of the header / stores into the variable map not recognised')
+    else:
+        idx_ok = True
+        for st_ in stores_d:
+            v_ = st_.value
+            ie = None
+            if isinstance(v_, ast.Dict):
+                ie = next((vv for kk, vv in zip(v_.keys, v_.values) if isinstance(kk, ast.Constant) and kk.value == 'index'), None)
+            elif isinstance(v_, ast.Call):
+                ie = next((k.value for k in v_.keywords if k.arg == 'index'), None)
+            if not (isinstance(ie, ast.Name) and any(ie.id == i_ for i_, _ in pairs_in)):
+                idx_ok = False
+        rep.decide(idx_ok, 'dictionary variables', stores_d[0], 'a["name"] -> position i of the name', 'a["name"] is no longer bound to the position of that name in the header')
     tm = node_text(fm, 2000)
     okm = ('for idx, column_name in enumerate(column_names)' in tm and 'index=idx' in tm) if port == 'py' else ('column_name = column_names[i]' in tm and "'index': i" in tm)
     rep.decide(okm, 'direct variables', fm, 'bare name -> its header position', 'direct-mode names are no longer bound to their header position')
@@ -756,11 +817,122 @@ def rule_va_enum(cx, rep, port):
     rep.decide(m_ok, 'direct-mode name check', fm, 'names must be identifiers (anchored)', 'direct-mode identifier check changed: {}'.format(pats.get('map_variables_directly')))
 
 
+def _index_name_pairs(fd, seq):
+    """loops of fd that run over the (position, element) pairs of the sequence `seq`: [(index variable, element variable)]
+       for i in range(len(seq)): x = seq[i]     for i, x in enumerate(seq)     for [i, x] of seq.entries()"""
+    out = []
+    for n in ast.walk(fd):
+        if not isinstance(n, ast.For):
+            continue
+        it, tg = n.iter, n.target
+        if isinstance(tg, ast.Name) and isinstance(it, ast.Call) and dotted(it.func) == 'range' and it.args and isinstance(it.args[-1], ast.Call) and dotted(it.args[-1].func) == 'len' and is_name(it.args[-1].args[0], seq) and (len(it.args) == 1 or const_value(it.args[0]) == 0):
+            for st in n.body:
+                if isinstance(st, ast.Assign) and len(st.targets) == 1 and isinstance(st.targets[0], ast.Name) and isinstance(st.value, ast.Subscript) and is_name(st.value.value, seq) and is_name(st.value.slice, tg.id):
+                    out.append((tg.id, st.targets[0].id))
+        if isinstance(tg, (ast.Tuple, ast.List)) and len(tg.elts) == 2 and all(isinstance(x, ast.Name) for x in tg.elts) and isinstance(it, ast.Call):
+            if (dotted(it.func) == 'enumerate' and len(it.args) == 1 and is_name(it.args[0], seq)) or (isinstance(it.func, ast.Attribute) and it.func.attr == 'entries' and is_name(it.func.value, seq) and not it.args):
+                out.append((tg.elts[0].id, tg.elts[1].id))
+    return out
+
+
+def _const_table(node):
+    """entries of a constant table: {k: v} / dict literal / new Map([[k, v], ...]) -> list of (key constant, value node)"""
+    if isinstance(node, ast.Dict) and node.keys and all(isinstance(k, ast.Constant) for k in node.keys):
+        return [(k.value, v) for k, v in zip(node.keys, node.values)]
+    if isinstance(node, ast.Call) and dotted(node.func) in ('Map', 'dict', 'OrderedDict', 'collections.OrderedDict') and len(node.args) == 1 and isinstance(node.args[0], (ast.List, ast.Tuple)):
+        ent = []
+        for e in node.args[0].elts:
+            if not (isinstance(e, (ast.List, ast.Tuple)) and len(e.elts) == 2 and isinstance(e.elts[0], ast.Constant)):
+                return None
+            ent.append((e.elts[0].value, e.elts[1]))
+        return ent
+    return None
+
+
+def _module_tables(fd):
+    """module-level constant tables visible to fd: name -> entries"""
+    mod = fd
+    while getattr(mod, 'parent', None) is not None:
+        mod = mod.parent
+    out = {}
+    for st in getattr(mod, 'body', []):
+        if isinstance(st, ast.Assign) and len(st.targets) == 1 and isinstance(st.targets[0], ast.Name):
+            t = _const_table(st.value)
+            if t is not None:
+                out[st.targets[0].id] = t
+    return out
+
+
+def _table_lookup(e, tables):
+    """`T.get(k)` / `T[k]` on a constant table -> its entries"""
+    if isinstance(e, ast.Call) and isinstance(e.func, ast.Attribute) and e.func.attr == 'get' and isinstance(e.func.value, ast.Name) and e.func.value.id in tables and e.args:
+        return tables[e.func.value.id]
+    if isinstance(e, ast.Subscript) and isinstance(e.value, ast.Name) and e.value.id in tables:
+        return tables[e.value.id]
+    return None
+
+
+def _table_rows_for(fd, tables, name, depth=0):
+    if depth > 4:
+        return None
+    """a local bound (directly or by destructuring position i) to a lookup in a constant table: [(row value node, i or None)]"""
+    for d in walk_no_nested(fd):
+        if not isinstance(d, ast.Assign) or len(d.targets) != 1:
+            continue
+        t = d.targets[0]
+        if isinstance(t, ast.Name) and t.id == name:
+            rows = _table_lookup(d.value, tables)
+            if rows is not None:
+                return [(v, None) for _, v in rows]
+            if isinstance(d.value, ast.Name):
+                return _table_rows_for(fd, tables, d.value.id, depth + 1)
+            # pathsem-style destructuring written by the JS front end: x = tmp[i]
+            if isinstance(d.value, ast.Subscript) and isinstance(d.value.value, ast.Name) and isinstance(d.value.slice, ast.Constant) and isinstance(d.value.slice.value, int):
+                inner = _table_rows_for(fd, tables, d.value.value.id, depth + 1)
+                if inner is not None:
+                    return [(v, d.value.slice.value) for v, _ in inner]
+        if isinstance(t, (ast.Tuple, ast.List)):
+            for i, el in enumerate(t.elts):
+                if isinstance(el, ast.Name) and el.id == name:
+                    src_ = d.value
+                    rows = _table_lookup(src_, tables)
+                    if rows is None and isinstance(src_, ast.Name):
+                        inner = _table_rows_for(fd, tables, src_.id, depth + 1)
+                        rows = [(None, v) for v, _ in inner] if inner is not None else None
+                    if rows is not None:
+                        return [(v, i) for _, v in rows]
+    return None
+
+def _pick_component(v, i):
+    if i is None:
+        return v
+    if isinstance(v, (ast.List, ast.Tuple)) and i < len(v.elts):
+        return v.elts[i]
+    return None
+
+
+
+def table_operand_values(fd, name):
+    """the constant-table values a local name can stand for (None when it is not bound to a lookup in a constant table)"""
+    rows = _table_rows_for(fd, _module_tables(fd), name)
+    if rows is None:
+        return None
+    vals = [_pick_component(v, i) for v, i in rows]
+    return None if any(v is None for v in vals) else vals
+
+
 def _replacement_sequence(fd, port):
     """the replacements a function applies, in execution order: [(order key, source, replacement, all occurrences?, node)].
-    Understands statement sequences, chained `.replace().replace()`, and a loop over a constant sequence of (source, replacement)
-    pairs (unrolled)."""
+    Understands statement sequences, chained `.replace().replace()`, a loop over a constant sequence of (source, replacement)
+    pairs (unrolled), one-pass replacement of a character class through a constant table (`replace(/[..]/g, c => T.get(c))`:
+    one simultaneous entry per character), and (search, replacement) pairs taken from a constant table keyed by a parameter
+    (one entry per table row)."""
     out = []
+    tables = _module_tables(fd)
+    spell = {'\n': '\\n', '\r': '\\r', '\t': '\\t', '\\': '\\\\'} if port == 'js' else {}
+
+    table_rows_for = lambda name: _table_rows_for(fd, tables, name)  # noqa: E731
+    pick = _pick_component
 
     def one(n, key, env):
         a0, a1 = n.args
@@ -768,6 +940,38 @@ def _replacement_sequence(fd, port):
             a0 = env[a0.id]
         if isinstance(a1, ast.Name) and a1.id in env:
             a1 = env[a1.id]
+        # (search, replacement) both taken from the same row of a constant table
+        if isinstance(a0, ast.Name) and isinstance(a1, ast.Name):
+            r0, r1 = table_rows_for(a0.id), table_rows_for(a1.id)
+            if r0 is not None and r1 is not None and len(r0) == len(r1):
+                for j, ((v0, i0), (v1, i1)) in enumerate(zip(r0, r1)):
+                    twin = ast.Call(func=n.func, args=[pick(v0, i0) or a0, pick(v1, i1) or a1], keywords=[])
+                    ast.copy_location(twin, n)
+                    one(twin, key + ('row', j), {})
+                return
+        # one pass over a character class through a constant table
+        fn = a1 if isinstance(a1, ast.Lambda) else getattr(a1, 'js_function_ref', None)
+        if fn is not None and isinstance(a0, ast.Call) and dotted(a0.func) == '__regex__' and 'g' in a0.args[1].value:
+            prm = [a.arg for a in fn.args.args][:1]
+            body = fn.body if isinstance(fn, ast.Lambda) else (fn.body[0].value if len(fn.body) == 1 and isinstance(fn.body[0], ast.Return) else None)
+            rows = _table_lookup(body, tables) if body is not None else None
+            pat = a0.args[0].value
+            if rows is not None and prm and pat.startswith('[') and pat.endswith(']') and not pat.startswith('[^'):
+                import re as _re
+                try:
+                    tree = _re._parser.parse(R.js_to_py(pat) if port == 'js' else pat)
+                    items = tree[0][1] if len(tree) == 1 and str(tree[0][0]) == 'IN' else ([tree[0]] if len(tree) == 1 and str(tree[0][0]) == 'LITERAL' else None)
+                except Exception:
+                    items = None
+                if items is not None and all(str(op) == 'LITERAL' for op, _ in items):
+                    chars = [chr(av) for _, av in items]
+                    tab = {k: v for k, v in rows}
+                    if all(c in tab and isinstance(tab[c], ast.Constant) for c in chars):
+                        # simultaneous: list the backslash entry first (order inside one pass is immaterial)
+                        for c in sorted(chars, key=lambda c: c != '\\'):
+                            src_c = {'\n': '\\n', '\r': '\\r', '\t': '\\t', '\\': '\\\\'}.get(c, c) if port == 'js' else c
+                            out.append((key, src_c, tab[c].value, True, n))
+                        return
         src = a0.value if isinstance(a0, ast.Constant) else (a0.args[0].value if isinstance(a0, ast.Call) and dotted(a0.func) == '__regex__' else None)
         if port == 'js' and isinstance(a0, ast.Constant) and isinstance(src, str):
             # a literal search string in JavaScript: spell it like the regex sources the tables use
@@ -857,16 +1061,48 @@ def rule_va_esc(cx, rep, port):
             rep.decide(ok, 'quote pair ' + q, node, 'key text uses the same quote character that was escaped', 'the variable key `{}` uses a different quote character than the one escaped ({})'.format(tmpl, q))
         rep.require_count('quote pairs', len(pairs), 2, pd)
     else:
-        escs = [n for n in walk_no_nested(pd) if isinstance(n, ast.Assign) and isinstance(n.value, ast.Call) and dotted(n.value.func) == fname]
-        keys = [n for n in walk_no_nested(pd) if isinstance(n, ast.Assign) and isinstance(n.targets[0], ast.Subscript) and isinstance(n.targets[0].slice, ast.JoinedStr)]
-        okp = len(escs) == 3 and len(keys) == 3
-        if okp:
-            for e, k in zip(sorted(escs, key=lambda n: n.lineno), sorted(keys, key=lambda n: n.lineno)):
-                q = e.value.args[1].value
-                t = ''.join(x.value if isinstance(x, ast.Constant) else '{}' for x in k.targets[0].slice.values)
-                if t != '{}[' + q + '{}' + q + ']':
-                    okp = False
-        rep.decide(okp, 'quote pairs', pd, 'each key text uses the quote character that was escaped', 'a variable key uses a different quote character than the one its name was escaped for')
+        escs = [n for n in ast.walk(pd) if isinstance(n, ast.Assign) and isinstance(n.value, ast.Call) and dotted(n.value.func) == fname and len(n.value.args) == 2]
+        keys = [n for n in ast.walk(pd) if isinstance(n, ast.Assign) and isinstance(n.targets[0], ast.Subscript) and isinstance(n.targets[0].slice, ast.JoinedStr)]
+        escs, keys = sorted(escs, key=lambda n: (n.lineno, n.col_offset)), sorted(keys, key=lambda n: (n.lineno, n.col_offset))
+        if not escs or len(escs) != len(keys):
+            rep.undecided('quote pairs', pd, 'escape calls ({}) and key templates ({}) do not pair up'.format(len(escs), len(keys)))
+        else:
+            okp = True
+            n_quotes = 0
+            for e, k in zip(escs, keys):
+                qa = e.value.args[1]
+                vals = k.targets[0].slice.values
+                if isinstance(qa, ast.Constant):
+                    n_quotes += 1
+                    t = ''.join(x.value if isinstance(x, ast.Constant) else '{}' for x in vals)
+                    okp = okp and t == '{}[' + qa.value + '{}' + qa.value + ']'
+                elif isinstance(qa, ast.Name):
+                    # the quote is a loop variable over a constant list of quote characters: the key text must put the same
+                    # variable on both sides of the escaped name
+                    shape = [('c', x.value) if isinstance(x, ast.Constant) else ('v', dotted(x.value)) for x in vals]
+                    want_shape = [('v', None), ('c', '['), ('v', qa.id), ('v', dotted(e.targets[0])), ('v', qa.id), ('c', ']')]
+                    okp = okp and len(shape) == 6 and all((w[0] == g[0] and (w[1] is None or w[1] == g[1])) for w, g in zip(want_shape, shape))
+                    lp_ = next((f_ for f_ in ast.walk(pd) if isinstance(f_, ast.For) and is_name(f_.target, qa.id)), None)
+                    seqv = None
+                    if lp_ is not None:
+                        seqv = lp_.iter
+                        if isinstance(seqv, ast.Name):
+                            modn = pd
+                            while getattr(modn, 'parent', None) is not None:
+                                modn = modn.parent
+                            seqv = next((st_.value for st_ in getattr(modn, 'body', []) if isinstance(st_, ast.Assign) and len(st_.targets) == 1 and is_name(st_.targets[0], seqv.id)), seqv)
+                    if isinstance(seqv, (ast.List, ast.Tuple)) and all(isinstance(x, ast.Constant) for x in seqv.elts):
+                        n_quotes += len(seqv.elts)
+                    else:
+                        okp = None
+                        break
+                else:
+                    okp = None
+                    break
+            if okp is None:
+                rep.undecided('quote pairs', pd, 'quote character of an escape call not recognised')
+            else:
+                rep.decide(okp and n_quotes >= 3, 'quote pairs', pd, 'each key text uses the quote character that was escaped ({} spellings)'.format(n_quotes), 'a variable key uses a different quote character than the one its name was escaped for')
     # VA-SEG: candidate filter class disjoint from escaped characters
     qf = p.func(mod, 'query_probably_has_dictionary_variable')
     from .pa import regex_sites
